@@ -7,6 +7,7 @@
                  that the statement of C08 names; plus conservation and isolation between snapshots.
    [model_ok]    runs Model.LabelMap.mstep on the same requests and compares what it predicts. *)
 From DV Require Import Base.Prelude Model.Index Model.LabelMap.
+From DV Require Model.Downres.
 Local Open Scope N_scope.
 
 (* ---------------- geometry ---------------- *)
@@ -15,7 +16,9 @@ Definition cx (p : c3) : nat := N.to_nat (fst (fst p)).
 Definition cy (p : c3) : nat := N.to_nat (snd (fst p)).
 Definition cz (p : c3) : nat := N.to_nat (snd p).
 
-Record geom := { g_bs : N; g_dim : c3 }.     (* block edge; blocks per axis *)
+Record geom := { g_bs : N; g_dim : c3; g_lo : bool }.   (* block edge; blocks per axis; scale 1 observed *)
+(* the geometry of the scale-1 volume: same blocks, half the edge *)
+Definition ghalf (g : geom) : geom := {| g_bs := g_bs g / 2; g_dim := g_dim g; g_lo := g_lo g |}.
 Definition gbs (g : geom) : nat := N.to_nat (g_bs g).
 Definition gnx g : nat := (cx (g_dim g) * gbs g)%nat.
 Definition gny g : nat := (cy (g_dim g) * gbs g)%nat.
@@ -119,6 +122,8 @@ Record snapshot := {
   sn_maxlabel : tri;
   sn_listlabels : delta (list (N * N));
   sn_points : delta (list (c3 * (N * N * N * N)));   (* label/<pt>, ?supervoxels, labels, ?supervoxels *)
+  sn_lo : list box;                   (* raw?scale=1&supervoxels=true, over the base (empty without g_lo) *)
+  sn_lomapped : list box;             (* raw?scale=1, over the base *)
 }.
 
 Record obs := {
@@ -130,12 +135,14 @@ Record obs := {
   ob_listlabels : list (N * N);
   ob_points : list (c3 * (N * N * N * N));
   ob_readerr : N;
+  ob_lo : vol N; ob_lomapped : vol N;
 }.
 
 Definition obs0 (g : geom) : obs :=
   {| ob_present := []; ob_sv := vconst g 0; ob_rawsv := vconst g 0; ob_blkmapped := vconst g 0;
      ob_rawmapped := vconst g 0; ob_labels := []; ob_mappings := []; ob_maxlabel := TErr;
-     ob_listlabels := []; ob_points := []; ob_readerr := 0 |}.
+     ob_listlabels := []; ob_points := []; ob_readerr := 0;
+     ob_lo := vconst (ghalf g) 0; ob_lomapped := vconst (ghalf g) 0 |}.
 
 Definition undelta {A} (d : delta A) (old : A) : A := match d with Same => old | New a => a end.
 
@@ -150,7 +157,8 @@ Definition apply_snap (base : obs) (s : snapshot) : obs :=
      ob_maxlabel := sn_maxlabel s;
      ob_listlabels := undelta (sn_listlabels s) (ob_listlabels base);
      ob_points := undelta (sn_points s) (ob_points base);
-     ob_readerr := sn_readerr s |}.
+     ob_readerr := sn_readerr s;
+     ob_lo := paint (ob_lo base) (sn_lo s); ob_lomapped := paint (ob_lomapped base) (sn_lomapped s) |}.
 
 (* ---------------- requests ---------------- *)
 Definition run := (c3 * N)%type.          (* start voxel, length *)
@@ -167,6 +175,7 @@ Inductive req :=
 | RSplit (v body : N) (runs : list run)
 | RCommit (v : N)
 | RNewVersion (parent child : N)       (* newversion or branch *)
+| RDagMerge (parent : N) (others : list N) (child : N)   (* POST repo/merge: [parent] is the first parent *)
 | RObserve.
 
 Record step := {
@@ -254,14 +263,17 @@ Definition K_ISOLATION := 5%nat.  (* an operation was visible at another version
 Definition K_REJECTED := 6%nat.   (* a refused request changed the state *)
 Definition K_SUM := 7%nat.        (* body sizes do not sum to the non-zero voxel count, voxel in body 0 *)
 Definition K_READ := 8%nat.       (* a read endpoint failed *)
-Definition K_MAXLABEL := 9%nat.   (* maxlabel of a non-root version unset or below labels it inherits (finding C08-maxlabel) *)
+Definition K_MAXLABEL := 9%nat.   (* maxlabel of a non-root version unset or below labels it inherits (was finding C08-maxlabel, repaired by C08-8-fix) *)
 Definition K_MAXLABEL_ROOT := 10%nat.
+Definition K_DAGMERGE := 12%nat.   (* at the child of a DAG merge node the mapping follows the first parent only while
+                                      indices / blocks resolve over all parents (finding C08-dagmerge) *)
+Definition K_LOWRES := 11%nat.     (* scale 1 is not the down-sampling of scale 0 / its mapped read is not the mapping of it *)
 
 Definition first_nz (l : list nat) : nat :=
   fold_right (fun k acc => if Nat.eqb k 0 then acc else k) 0%nat l.
 Definition chk (ok : bool) (k : nat) : nat := if ok then 0%nat else k.
 (* classes reserved for recorded findings never hide another class found in the same history *)
-Definition known_class (k : nat) : bool := Nat.eqb k K_MAXLABEL.
+Definition known_class (k : nat) : bool := Nat.eqb k K_DAGMERGE.
 Definition pick (l : list nat) : nat :=
   match find (fun k => negb (Nat.eqb k 0) && negb (known_class k)) l with
   | Some k => k
@@ -312,6 +324,23 @@ Definition sv_class (g : geom) (o : obs) (sc : index) (s : N) (b : bodyobs) : na
 
 Definition maxN (l : list N) : N := fold_right N.max 0 l.
 
+(* ---------------- scale 1 (C14): each voxel is the vote of its eight children ---------------- *)
+Fixpoint pairs {A} (l : list A) : list (A * A) :=
+  match l with
+  | a :: (b :: r) => (a, b) :: pairs r
+  | _ => []
+  end.
+Definition downres_vol (v : vol N) : vol N :=
+  map (fun zz : list (list N) * list (list N) =>
+         map (fun yy : (list N * list N) * (list N * list N) =>
+                let '((r00, r01), (r10, r11)) := yy in
+                map (fun q : ((N * N) * (N * N)) * ((N * N) * (N * N)) =>
+                       let '(((a, b), (c, d)), ((e, f), (g', h))) := q in
+                       Downres.vote [a; b; c; d; e; f; g'; h])
+                    (combine (combine (pairs r00) (pairs r01)) (combine (pairs r10) (pairs r11))))
+             (combine (pairs (fst zz)) (pairs (snd zz))))
+      (pairs v).
+
 Definition obs_class (g : geom) (o : obs) (root : bool) : nat :=
   let sc := scan g (ob_sv o) in
   let live := supervoxels sc in
@@ -329,7 +358,11 @@ Definition obs_class (g : geom) (o : obs) (root : bool) : nat :=
                                let s := vget (ob_sv o) (cx p) (cy p) (cz p) 0 in
                                (a_sv =? s) && (m_sv =? s) && (a =? body_of o s) && (m =? body_of o s)) (ob_points o)) K_VOXEL;
        chk (negb (memN 0 bodies)) K_SUM;
-       chk (sum =? num_voxels sc) K_SUM ]
+       chk (sum =? num_voxels sc) K_SUM;
+       (* scale 1 is the down-sampling of the stored supervoxels; its mapped read is that pushed
+          through the mapping *)
+       chk (negb (g_lo g) || vol_eqb N.eqb (downres_vol (ob_sv o)) (ob_lo o)) K_LOWRES;
+       chk (negb (g_lo g) || vol_eqb N.eqb (map (map (map (body_of o))) (ob_lo o)) (ob_lomapped o)) K_LOWRES ]
      ++ map (fun lb => if fst lb =? 0 then 0%nat else body_class g o sc (fst lb) (snd lb)) (ob_labels o)
      ++ map (fun lb => if fst lb =? 0 then 0%nat else sv_class g o sc (fst lb) (snd lb)) (ob_labels o)
      ++ [ (* mappings: agrees with mapping on live supervoxels, lists every live supervoxel mapped elsewhere *)
@@ -361,7 +394,8 @@ Definition labels_same (a b : obs) : bool :=
 
 Definition obs_same (a b : obs) : bool :=
   set_eqb (ob_present a) (ob_present b) && vol_eqb N.eqb (ob_sv a) (ob_sv b) &&
-  vol_eqb N.eqb (ob_blkmapped a) (ob_blkmapped b) && labels_same a b.
+  vol_eqb N.eqb (ob_blkmapped a) (ob_blkmapped b) && labels_same a b &&
+  vol_eqb N.eqb (ob_lo a) (ob_lo b) && vol_eqb N.eqb (ob_lomapped a) (ob_lomapped b).
 
 Definition req_version (r : req) : option N :=
   match r with
@@ -384,7 +418,15 @@ Definition conserve_ok (r : req) (a b : obs) : bool :=
 Record runst := { rs_obs : list (N * obs) }.
 
 (* one snapshot: returns the class and the updated observation table *)
-Definition snap_step (g : geom) (st : step) (first : bool) (tbl : list (N * obs)) (s : snapshot)
+(* the inconsistency of finding C08-dagmerge: some body's index lists a supervoxel that the mapping
+   read at the same version assigns to another body *)
+Definition dag_signature (o : obs) : bool :=
+  existsb (fun lb => match bo_index (snd lb) with
+                     | Some i => existsb (fun e => negb (body_of o (ksv e) =? fst lb)) i
+                     | None => false
+                     end) (ob_labels o).
+
+Definition snap_step (g : geom) (mc : list N) (st : step) (first : bool) (tbl : list (N * obs)) (s : snapshot)
   : nat * list (N * obs) :=
   let base := match sn_base s with
               | Some v => match aget N.eqb v tbl with Some o => o | None => obs0 g end
@@ -394,7 +436,8 @@ Definition snap_step (g : geom) (st : step) (first : bool) (tbl : list (N * obs)
   let prev := aget N.eqb (sn_ver s) tbl in
   let own := match req_version (st_req st) with Some v => (v =? sn_ver s) && first | None => false end in
   let k1 := obs_class g o (sn_ver s =? 0) in
-  let k2 := match prev with
+  let k2 := if memN (sn_ver s) mc then 0%nat else   (* a merge child is not a copy of its first parent *)
+            match prev with
             | None =>
               (* first observation of a version: its nearest observed ancestor is committed, so the
                  version shows exactly that, except for what a request at the version itself did *)
@@ -413,18 +456,24 @@ Definition snap_step (g : geom) (st : step) (first : bool) (tbl : list (N * obs)
                 else chk (obs_same po o) K_REJECTED
               else chk (obs_same po o) K_ISOLATION
             end in
-  (pick [k1; k2], aset N.eqb (sn_ver s) o tbl).
+  let k := pick [k1; k2] in
+  ((if memN (sn_ver s) mc && negb (Nat.eqb k 0) && dag_signature o then K_DAGMERGE else k),
+   aset N.eqb (sn_ver s) o tbl).
 
-Definition step_class (g : geom) (acc : nat * list (N * obs)) (st : step) : nat * list (N * obs) :=
+Definition step_class (g : geom) (mc : list N) (acc : nat * list (N * obs)) (st : step) : nat * list (N * obs) :=
   let r := fold_left (fun (a : nat * bool * list (N * obs)) s =>
                         let '(k, first, tbl) := a in
-                        let '(k', tbl') := snap_step g st first tbl s in
+                        let '(k', tbl') := snap_step g mc st first tbl s in
                         (pick [k; k'], false, tbl'))
                      (st_snaps st) (fst acc, true, snd acc) in
   (fst (fst r), snd r).
 
+(* children of DAG merge nodes *)
+Definition merge_children (h : history) : list N :=
+  flat_map (fun st => match st_req st with RDagMerge _ _ c => [c] | _ => [] end) (h_steps h).
+
 Definition spec_class (h : history) : nat :=
-  fst (fold_left (step_class (h_geom h)) (h_steps h) (0%nat, [])).
+  fst (fold_left (step_class (h_geom h) (merge_children h)) (h_steps h) (0%nat, [])).
 
 (* ---------------- the model run ---------------- *)
 Definition fstate_vol (g : geom) (st : fstate) : vol N :=
@@ -503,6 +552,7 @@ Definition req_ops (g : geom) (lay : vol N) (s : mstate) (st : step) : list mop 
     [MData v (OSplit body (hdN (st_ret st)) (runs_masks g runs (map fst rl)) (triples (tl (st_ret st))))]
   | RCommit _ => []
   | RNewVersion p c => [MNewVersion p c]
+  | RDagMerge p _ c => [MNewVersion p c]     (* the machine has no merge nodes: first parent only *)
   | RObserve => []
   end.
 
